@@ -224,9 +224,22 @@ func RunCheck(s *Session, verifDir, id, tier string, spec CheckSpec, known []Kno
 		})
 	}
 	states, transitions := 0, 0
+	// distinct non-trivial obligations: distinct (kind, message, position) triples over all harness runs whose query
+	// needed a solver (the simplifier alone did not close it)
+	distinct := map[string]bool{}
 	for _, r := range results {
 		states += r.Forks + 1
 		transitions += r.Instrs
+		for _, o := range r.Obligations {
+			if o.Solver != "simplifier" && o.Solver != "" {
+				distinct[o.Kind+"|"+o.Msg+"|"+o.Pos] = true
+			}
+		}
+		for _, o := range r.Covers {
+			if o.Solver != "simplifier" && o.Solver != "" {
+				distinct["cover|"+o.Msg] = true
+			}
+		}
 	}
 	cov := map[string]interface{}{
 		"explanation":                   spec.Explanation + " Each harness below was executed symbolically from /repo's current SSA; every listed query is the solver's verdict over all values of the symbolic inputs within the stated bounds (unsat = holds; cover queries must be sat). Counterexamples are replayed natively before being reported.",
@@ -239,14 +252,14 @@ func RunCheck(s *Session, verifDir, id, tier string, spec CheckSpec, known []Kno
 		"queries":                       queries,
 		"solver_time_s":                 round2(solverTime),
 		"evaluations":                   queries,
-		"distinct_nontrivial":           obligations,
-		"rule":                          "one evaluation = one SMT query (obligation or vacuity guard) over all symbolic inputs; distinct_nontrivial counts distinct obligations (grouped by assertion site / message) that were not closed by the simplifier alone",
+		"distinct_nontrivial":           len(distinct),
+		"rule":                          "one evaluation = one SMT query (obligation or vacuity guard) over all symbolic inputs; distinct_nontrivial counts the distinct obligations (kind, message, source position) over all harness runs of this check whose query needed a solver, i.e. was not closed by the term simplifier alone",
 		"samples":                       samples,
 		"states":                        states,
 		"transitions":                   transitions,
 		"traces_validated_against_impl": coversSat,
 		"checker_cmd":                   fmt.Sprintf("./check %s --tier %s", id, tier),
-		"trusted_base":                  []string{"gosmt SSA->SMT encoder (this repository)", "golang.org/x/tools/go/ssa v0.29.0", "z3 4.8.12 / cvc5 1.0", "stubs listed in stubs_in_force"},
+		"trusted_base":                  []string{"gosmt SSA->SMT encoder (this repository)", "golang.org/x/tools/go/ssa v0.29.0", "z3 5.1.0 (z3-new) / cvc5 1.0 as a portfolio", "stubs listed in stubs_in_force"},
 	}
 	ev := Evidence{PropertyID: id, Tier: tier, Seed: seed, Level: spec.Level, Coverage: cov, Assumptions: spec.Assumptions, WallS: round2(wall), Violations: violations}
 	os.MkdirAll(filepath.Join(verifDir, "evidence"), 0o755)
